@@ -267,6 +267,38 @@ def r3(ctx, R):
         R.bad(dr, dr.node, "base references are not bound in the instance and its children", stmt="_init_dynbaserefs")
 
 
+@rule("C07.R5", "C07", "FLOW", "every name the instance builder reads is bound", min_instances=1)
+def r5(ctx, R):
+    """symtable over modelx/core/space.py: a name that a function of ItemSpaceParent / DynamicSpaceImpl /
+    ItemSpaceImpl reads as a global is a module-level name or a builtin (the `bases` / `bs` slip made
+    `{"bases": None}` raise NameError instead of using the default base)."""
+    import builtins
+    import symtable
+    mi = ctx.repo.module("modelx.core.space")
+    st = symtable.symtable(mi.src, mi.relpath, "exec")
+    modnames = set(st.get_identifiers())
+    n = 0
+
+    def visit(t, encl, cls):
+        nonlocal n
+        for ch in t.get_children():
+            if ch.get_type() == "class":
+                visit(ch, encl, ch.get_name())
+            elif ch.get_type() == "function":
+                if cls in ("ItemSpaceParent", "DynamicSpaceImpl", "ItemSpaceImpl", "DynamicBase", "DynBaseRefDict"):
+                    n += 1
+                    R.inst("%s.%s: global reads are bound" % (cls, ch.get_name()))
+                    for s in ch.get_symbols():
+                        nm = s.get_name()
+                        if s.is_global() and s.is_referenced() and not s.is_assigned() and nm not in modnames \
+                                and not hasattr(builtins, nm) and nm not in encl:
+                            R.bad("%s.%s" % (cls, ch.get_name()), None, "reads the unbound name `%s`: NameError at run time on the "
+                                  "path that uses it" % nm, stmt="unbound %s" % nm)
+                visit(ch, encl | set(ch.get_identifiers()), cls)
+    visit(st, set(), None)
+    R.need(n >= 10, "expected >=10 instance-builder functions, found %d" % n)
+
+
 @rule("C07.R4", "C07", "FLOW", "handle identity: cache key and re-attachment", min_instances=5)
 def r4(ctx, R):
     """dkey = (dynamic_key of the parent if dynamic else ()) + (key,); the instance interface is
